@@ -642,9 +642,18 @@ fn judge_cell(cell: &Cell, probes: &[Probe], docs: &BTreeMap<(String, String), N
 #[derive(Clone, Debug, Serialize, Deserialize)]
 struct Mutated {
     probe: u16,
+    /// index into the credentials without write access / the configurations of the probe's family
+    cred: u8,
+    config: u8,
+    /// path mutations applied in order: (kind, position)
+    muts: Vec<(u8, u16)>,
+    method_mut: u8,
+    header_mut: u8,
+}
+
+struct MutatedResolved {
     cred: Cred,
     config: Config,
-    /// path mutations applied in order: (kind, position)
     muts: Vec<(u8, u16)>,
     method_mut: u8,
     header_mut: u8,
@@ -720,13 +729,11 @@ fn is_public(method: &str, path: &str, docs: &BTreeMap<(String, String), Need>) 
 
 fn judge_mutated(mc: &Mutated, probes: &[Probe], docs: &BTreeMap<(String, String), Need>) -> Outcome {
     let p = &probes[vh_common::idx::pick(mc.probe, probes.len())];
-    let cfg_ok = match p.family {
-        Family::Tenant => SERVER_CONFIGS.contains(&mc.config),
-        _ => COORD_CONFIGS.contains(&mc.config),
+    let (config, cred) = match p.family {
+        Family::Tenant => (SERVER_CONFIGS[mc.config as usize % 3], [Cred::None, Cred::Wrong, Cred::Viewer, Cred::Operator][mc.cred as usize % 4]),
+        _ => ([Config::SingleKey, Config::MultiKeyFile, Config::MultiKeyAnonymousViewer, Config::MultiKeyFileNoAdmin][mc.config as usize % 4], [Cred::None, Cred::Wrong, Cred::Viewer, Cred::TenantKey][mc.cred as usize % 4]),
     };
-    if !cfg_ok {
-        return Outcome::discard("config-of-other-family");
-    }
+    let mc = &MutatedResolved { cred, config, header_mut: mc.header_mut, method_mut: mc.method_mut, muts: mc.muts.clone() };
     let path = mutate_path(p.path, &mc.muts);
     if path.contains("{PID}") != p.path.contains("{PID}") || path.contains("{TID}") != p.path.contains("{TID}") || path.contains("{pid}") || path.contains("{tid}") || path.contains("%7b") {
         // placeholder damaged by the mutation: keep it simple
@@ -797,8 +804,8 @@ fn judge_mutated(mc: &Mutated, probes: &[Probe], docs: &BTreeMap<(String, String
 fn mutated_strategy() -> impl Strategy<Value = Mutated> {
     (
         any::<u16>(),
-        prop_oneof![Just(Cred::None), Just(Cred::Wrong), Just(Cred::Viewer), Just(Cred::TenantKey)],
-        proptest::sample::select(vec![Config::SingleKey, Config::MultiKeyFile, Config::MultiKeyAnonymousViewer, Config::MultiKeyFileNoAdmin, Config::ServerAdminKey, Config::ServerNoAdminKey, Config::ServerAdminKeyIsTenant]),
+        0u8..4,
+        0u8..12,
         proptest::collection::vec((any::<u8>(), any::<u16>()), 0..3),
         any::<u8>(),
         any::<u8>(),
@@ -848,6 +855,6 @@ fn main() {
     }
     check.extra("matrix_cells", json!(cells.len()));
     check.enumerate("matrix", cells, |c: &Cell| judge_cell(c, &probes, &docs));
-    check.explore("mutated_requests", mutated_strategy, 2000, 30_000, |m: &Mutated| judge_mutated(m, &probes, &docs));
+    check.explore("mutated_requests", mutated_strategy, 4000, 60_000, |m: &Mutated| judge_mutated(m, &probes, &docs));
     check.finish();
 }
